@@ -14,7 +14,21 @@ fn sig_with(sig: &Value, k: &str, v: &Integer) -> Value {
     s
 }
 
+/// CL03Message::map_message_to_integer_as_hash against an independent SHA-256
+fn maphash_cases(h: &mut H) {
+    use sha2::Digest;
+    for len in [0usize, 1, 31, 32, 55, 56, 63, 64, 65, 119, 120, 1000] {
+        let b = h.rng.bytes(len);
+        let hx = if b.is_empty() { ".".to_string() } else { b.iter().map(|x| format!("{:02x}", x)).collect::<String>() };
+        let (o, _) = call(h, "cl.maphash", vec![Value::String(hx)], vec![]);
+        let want = Integer::from_digits(&sha2::Sha256::digest(&b), rug::integer::Order::MsfBe);
+        h.stat("C13.maphash");
+        h.expect(o.ok().map(|v| int_of(v)) == Some(want), "C13.maphash", "map_message_to_integer_as_hash is not the SHA-256 digest read as an integer", &[h.last()]);
+    }
+}
+
 pub fn c13(h: &mut H) {
+    maphash_cases(h);
     let p = params(h.suite);
     let nmax = 5usize;
     let k = keygen(h, nmax);
@@ -147,10 +161,16 @@ pub fn c13(h: &mut H) {
             reject(h, "field_swap", &k.pk, &bases, &sw, &msgs);
             let mut ob = bases.clone();
             ob.rotate_left(1);
-            if n > 1 {
+            // (a^0 = 1 for every base: with all attributes 0 the bases do not enter the statement, and with all
+            // attributes equal a rotation of the bases is the same statement -- DESIGN O7)
+            let all_zero = msgs.iter().all(|m| *m == 0);
+            let all_equal = msgs.iter().all(|m| *m == msgs[0]);
+            if n > 1 && !all_equal {
                 reject(h, "bases_rotated", &k.pk, &ob, &sig, &msgs);
             }
-            reject(h, "other_bases", &k.pk, &k2.bases[..n], &sig, &msgs);
+            if !all_zero {
+                reject(h, "other_bases", &k.pk, &k2.bases[..n], &sig, &msgs);
+            }
             reject(h, "other_key", &k2.pk, &k2.bases[..n], &sig, &msgs);
             let mut pk3 = k.pk.clone();
             pk3["c"] = k.pk["b"].clone();
